@@ -180,7 +180,7 @@ impl OExec {
                     self.m.ops.remove(&wi);
                 }
                 let exp = vec![Ev { contract: addr_bytes(&oc), topics: vec![sym(if add { "operator_added" } else { "operator_removed" }), saddr(&self.p[wi])], data: ScVal::Void }];
-                ctx.check(res.events == exp, &["C17"], &format!("{}/wrong-event", func), || format!("{:?}", res.events));
+                ctx.check(crate::judge::events_match(&res.events, &exp, &[]), &["C17"], &format!("{}/wrong-event", func), || format!("{:?}", res.events));
             }
             OOp::TransferOwnership { to, auth, abort } => {
                 let ti = pi(*to);
@@ -210,7 +210,7 @@ impl OExec {
                     return;
                 }
                 let exp = vec![Ev { contract: addr_bytes(&oc), topics: vec![sym("ownership_transferred"), saddr(&self.p[o]), saddr(&self.p[ti])], data: svec(vec![]) }];
-                ctx.check(res.events == exp, &["C06"], "role-transfer/wrong-event", || format!("{:?}", res.events));
+                ctx.check(crate::judge::events_match(&res.events, &exp, &[]), &["C06"], "role-transfer/wrong-event", || format!("{:?}", res.events));
                 if ti != o {
                     self.m.former_owner = Some(o);
                 }
